@@ -290,7 +290,7 @@ def corpus():
     return out
 
 
-QUICK = {"simple": 1400, "sets": 500, "fetch": 250, "big": 1 << 14}
+QUICK = {"simple": 3200, "sets": 1100, "fetch": 500, "big": 1 << 14}
 THOROUGH_SHARD = {"simple": 4000, "sets": 1500, "fetch": 700, "big": 1 << 18}
 
 
